@@ -13,6 +13,7 @@ From ZV.C08 Require Import Model ProofsInv ProofsStep ProofsRefute ProofsRun.
 From ZV.C08 Require Import ModelFixedCap ProofsFixedCapRun Cases.
 From ZV.C08 Require Import ModelStats ModelVariants ProofsTagged2.
 From ZV.C08 Require Import ModelSecure ProofsSecureInv ProofsSecureRun.
+From ZV.C08 Require Import ModelMemPool ProofsMemPool.
 Open Scope N_scope.
 
 (* each block is owned by at most one thread at a time, under every interleaving *)
@@ -526,3 +527,40 @@ Check secure_concurrent_reuse_refuted :
     nth_error (sthr s) 0 = Some l0 /\ nth_error (sthr s) 1 = Some l1 /\
     In ch (sheld l0) /\ In ch (sheld l1).
 Print Assumptions secure_concurrent_reuse_refuted.
+
+(* ==========================================================================================
+   MemoryPool (src/memory/pool.rs): a VecDeque of pooled chunks behind a mutex that is only ever
+   try_lock-ed (a busy lock sends an allocation to the system allocator and a free to direct
+   release), byte accounting under a blocking write lock (repair e88cf6d), atomic counters
+   (ModelMemPool.v).  Any number of threads, all schedules, no hypothesis.
+   ========================================================================================== *)
+
+(* once all threads are done: stats.allocated = chunk_size x (pooled chunks + chunks in the threads' hands) - the
+   saturating subtraction never saturated and no update was skipped -, pool_hits + pool_misses = alloc_count, the
+   queue lock is free, at most max_chunks chunks are pooled, and no chunk is pooled twice or pooled and held *)
+Theorem mempool_accounting_exact_at_quiescence :
+  forall c n sc,
+  let s := mrun c (minit n) sc in mquiescent s ->
+  mallocated s = m_csize c * N.of_nat (length (mqueue s) + length (concat (map mheld (mthr s)))) /\
+  mc_hits s + mc_misses s = mc_alloc s /\ mlock s = None /\
+  N.of_nat (length (mqueue s)) <= m_max c /\
+  NoDup (mqueue s ++ concat (map mheld (mthr s))).
+Proof. exact mempool_accounting_proof. Qed.
+Check mempool_accounting_exact_at_quiescence :
+  forall c n sc,
+  let s := mrun c (minit n) sc in mquiescent s ->
+  mallocated s = m_csize c * N.of_nat (length (mqueue s) + length (concat (map mheld (mthr s)))) /\
+  mc_hits s + mc_misses s = mc_alloc s /\ mlock s = None /\
+  N.of_nat (length (mqueue s)) <= m_max c /\
+  NoDup (mqueue s ++ concat (map mheld (mthr s))).
+Print Assumptions mempool_accounting_exact_at_quiescence.
+
+(* in every reachable state no chunk is in two places (pooled, in a thread's hands, or carried through an operation) *)
+Theorem mempool_no_chunk_in_two_places :
+  forall c n sc,
+  let s := mrun c (minit n) sc in NoDup (mqueue s ++ concat (map mplaces (mthr s))).
+Proof. exact mempool_unique_proof. Qed.
+Check mempool_no_chunk_in_two_places :
+  forall c n sc,
+  let s := mrun c (minit n) sc in NoDup (mqueue s ++ concat (map mplaces (mthr s))).
+Print Assumptions mempool_no_chunk_in_two_places.
